@@ -208,6 +208,22 @@ func runOwnAlias() []*aliasRow {
 				mark(rMulti, dump(trees[i]) != snaps[i], "a tree of ParseMultiple changed during later parsing")
 			}
 		}
+		// a batch that repeats a query text: every result is the caller's own tree (distinct objects), and releasing
+		// one of them leaves the others intact
+		if len(qs) > 0 {
+			rep := []string{qs[0], qs[len(qs)-1], qs[0], qs[0]}
+			dups, derr := gosqlx.ParseMultiple(rep)
+			if derr == nil && len(dups) == len(rep) {
+				for i := range dups {
+					for j := i + 1; j < len(dups); j++ {
+						mark(rMulti, dups[i] == dups[j], "ParseMultiple returned the same *ast.AST for two entries of the batch")
+					}
+				}
+				keep := dump(dups[3])
+				ast.ReleaseAST(dups[0])
+				mark(rMulti, dump(dups[3]) != keep, "releasing one tree of a ParseMultiple batch changed another tree of the batch")
+			}
+		}
 	}
 	rRec := row("statements (ParseWithRecovery)", "later parsing and releases")
 	for _, in := range aliasInputs {
